@@ -68,6 +68,9 @@ type TxMeta struct {
 	Note     string
 	Data     interface{}
 	Issuer   *types.Address // check issuer for redeem
+	Code     uint32         // result code of this delivery (filled after DeliverTx)
+	FirstCode uint32        // for redeliveries: result code of the first delivery of these bytes
+	OrigKind string         // for redeliveries: kind of the original transaction
 	Dup      bool           // bytes identical to an earlier delivered tx
 	Malleated bool
 	Garbage  bool
@@ -83,6 +86,7 @@ type View struct {
 	Log      []*TxMeta // all delivered txs so far (for redelivery)
 	NVal     int
 	Issued   []*IssuedCheck
+	DupAcceptedOnly bool // redeliver only transactions whose first delivery was accepted
 	addrIdx  map[types.Address]int
 }
 
@@ -379,10 +383,27 @@ func (v *View) Resolve(op Op) *TxMeta {
 			m.Garbage = true
 			return m
 		}
-		ref := v.Log[len(v.Log)-1-mod(int64(op.Ref), len(v.Log))]
+		pool := v.Log
+		if v.DupAcceptedOnly && op.K == "redeliver" {
+			pool = nil
+			for _, l := range v.Log {
+				if l.Code == 0 && !l.Garbage {
+					pool = append(pool, l)
+				}
+			}
+			if len(pool) == 0 {
+				m.Bytes = []byte{0xc0}
+				m.Garbage = true
+				return m
+			}
+		}
+		ref := pool[len(pool)-1-mod(int64(op.Ref), len(pool))]
 		*m = *ref
 		m.Op = op
 		m.Kind = op.K
+		if !ref.Dup {
+			m.FirstCode, m.OrigKind = ref.Code, ref.Kind
+		}
 		switch op.K {
 		case "redeliver":
 			m.Dup = true
@@ -894,6 +915,16 @@ func (v *View) Resolve(op Op) *TxMeta {
 	m.Sender = sender
 	m.Nonce = nonce
 	m.GasCoin = uint64(gasCoin)
+	// sell-all transactions pay their commission in the coin being sold
+	switch d := data.(type) {
+	case transaction.SellAllCoinData:
+		m.GasCoin = uint64(d.CoinToSell)
+	case transaction.SellAllSwapPoolDataV260:
+		m.GasCoin = 0
+		if len(d.Coins) > 0 {
+			m.GasCoin = uint64(d.Coins[0])
+		}
+	}
 	m.GasPrice = gp
 	m.ChainOK = chain == v.Chain
 	m.Payload = op.PL + op.SD
